@@ -370,7 +370,19 @@ def r6_no_key_independent_cache(ctx):
     ctx.count('memoised_methods', n)
 
 
+def r7_shared(ctx):
+    from ..report import Relabel
+    from .c14 import r5_no_stale_key_state
+    from .c15 import r2_order
+    from .c17 import r6_kdf_passthrough, r5_new_key
+
+    r5_no_stale_key_state(Relabel(ctx, 'C06.R6'))
+    r6_kdf_passthrough(Relabel(ctx, 'C06.R1'))
+    r2_order(Relabel(ctx, 'C06.R3'))
+
+
 def run(ctx):
+    r7_shared(ctx)
     r1_unlock(ctx)
     r2_delete_refusal(ctx)
     r3_readers(ctx)
